@@ -517,6 +517,18 @@ func (e *specEnv) evalCall(n *ECall) sv {
 	case "out":
 		// ghost: everything written so far to a writer / buffer (by object identity)
 		need(1)
+		if id, ok := n.Args[0].(*EIdent); ok {
+			// a local variable that is itself the buffer (var sb strings.Builder): its identity is the
+			// address of its cell
+			if _, bound := e.vars[id.Name]; !bound {
+				if al := c.cellOf(id.Name); al != nil && c.vals[al] != "" {
+					if _, isStruct := types.Unalias(al.Type().(*types.Pointer).Elem()).Underlying().(*types.Struct); isStruct {
+						h := c.heapGet("GH_out", "(Array Int Str)")
+						return sv{sel(h, c.vals[al]), tStr}
+					}
+				}
+			}
+		}
 		a := args()[0]
 		h := c.heapGet("GH_out", "(Array Int Str)")
 		return sv{sel(h, c.writerKey(a)), tStr}
